@@ -17,24 +17,34 @@ pub struct CfgSpec {
     pub oracle: bool,
     pub same_prefix: bool,
     pub stopped: bool,
+    /// 0: batch period 1 day, unbonding period 14 days, one monitor; 1: both periods 0 and no monitor;
+    /// 2: both periods 1 s and two monitors (a second one that is also an ordinary user)
+    pub variant: u8,
 }
 impl CfgSpec {
     pub fn name(&self) -> String {
-        format!("{}{}{}{}", if self.treasury { "T" } else { "t" }, if self.oracle { "O" } else { "o" }, if self.same_prefix { "P" } else { "p" }, if self.stopped { "S" } else { "s" })
+        format!("{}{}{}{}{}", if self.treasury { "T" } else { "t" }, if self.oracle { "O" } else { "o" }, if self.same_prefix { "P" } else { "p" }, if self.stopped { "S" } else { "s" }, if self.variant == 0 { String::new() } else { format!("v{}", self.variant) })
+    }
+    pub fn periods(&self) -> (u64, u64) {
+        match self.variant {
+            1 => (0, 0),
+            2 => (1, 1),
+            _ => (86_400, 1_209_600),
+        }
     }
     pub fn all() -> Vec<CfgSpec> {
         let mut v = vec![];
         for treasury in [true, false] {
             for oracle in [true, false] {
                 for same_prefix in [false, true] {
-                    v.push(CfgSpec { treasury, oracle, same_prefix, stopped: false });
+                    v.push(CfgSpec { treasury, oracle, same_prefix, stopped: false, variant: 0 });
                 }
             }
         }
         v
     }
     pub fn base() -> CfgSpec {
-        CfgSpec { treasury: true, oracle: true, same_prefix: false, stopped: false }
+        CfgSpec { treasury: true, oracle: true, same_prefix: false, stopped: false, variant: 0 }
     }
 }
 
@@ -196,7 +206,7 @@ pub fn init_msg(who: &Who, cfg: &CfgSpec, fee_rate: Uint128, min_stake: Uint128)
             validator_address_prefix: who.vp.clone(),
             token_denom: "utia".into(),
             validators: vec![who.val1.clone(), who.val2.clone()],
-            unbonding_period: 1_209_600,
+            unbonding_period: cfg.periods().1,
             staker_address: who.staker.clone(),
             reward_collector_address: who.collector.clone(),
         },
@@ -209,8 +219,12 @@ pub fn init_msg(who: &Who, cfg: &CfgSpec, fee_rate: Uint128, min_stake: Uint128)
         },
         protocol_fee_config: UnsafeProtocolFeeConfig { dao_treasury_fee: fee_rate, treasury_address: if cfg.treasury { Some(who.treasury.clone()) } else { None } },
         liquid_stake_token_denom: addr::SUBDENOM.into(),
-        batch_period: 86_400,
-        monitors: vec![who.monitor.clone()],
+        batch_period: cfg.periods().0,
+        monitors: match cfg.variant {
+            1 => vec![],
+            2 => vec![who.monitor.clone(), who.u3.clone()],
+            _ => vec![who.monitor.clone()],
+        },
     }
 }
 
